@@ -85,7 +85,7 @@ class TrioEnv:
         self.clock = trio.testing.MockClock()
         self.deadlocked = False
         self.steps = 0
-        self.horizon = 20000
+        self.horizon = 1500
         self.loop = self  # harnesses reach actions through env.loop.actions on asyncio; keep that spelling working
 
     # ---- what the harness sees -----------------------------------------------------------------
